@@ -118,7 +118,8 @@ extend schema @onSchema
 extend schema @onSchema { subscription: SubscriptionType }
 '''
 EXTRA = ['{ f(a: $v, b: [1, [2]], c: {d: {e: $x}}) }', 'fragment F($a: Int = 1) on T { ...G(x: $a) }',
-         'query ($v: [Int!]! = [1] @d) { a }', 'directive @a @b on FIELD', 'extend directive @a @b',
+         'query ($v: [Int!]! = [1] @d) { a }', 'directive @a @b on FIELD', '"d" directive @a(x: Int = 1 @c, y: [T!]) @b @c repeatable on FIELD | QUERY',
+         'query Q($a: Int = 1 @d, "desc" $b: [T] @e) @f { a }', 'extend directive @a @b',
          '"d" { a }', '"d" extend type A @b', 'extend', 'extend foo', '... on', '{ ...on }',
          'enum E { true }', 'fragment on on T { a }', 'query Q($a: Int = $b) { a }',
          'directive @d on FOO', 'schema { foo: T }', '{ a(b: {c: $d}) @e(f: [$g]) }']
